@@ -121,4 +121,20 @@ RadixChunks(copy, radix, base, power) ==
     IF LastDigitIndex(copy) = 0 THEN EmitRest(copy, radix)
     ELSE EmitPow(copy % base, radix, power) \o RadixChunks(copy \div base, radix, base, power)
 ToRadixDigitsLe(x, radix) == LET bp == HalfBase(radix, radix, 1) IN RadixChunks(x, radix, bp[1], bp[2])
+
+\* ---- src/buint/fmt.rs fmt_method!: binary / hex text assembled digit by digit from the most significant digit:
+\* leading zero digits are skipped, the first non-zero digit is printed without padding, every later digit is
+\* zero-padded to the full digit width (DBits / bits characters).  Result: most-significant-first radix-2^bits digits.
+RECURSIVE MSDigits(_, _, _)
+MSDigits(d, bits, cnt) == IF cnt = 0 THEN <<>> ELSE MSDigits(d \div P2(bits), bits, cnt - 1) \o <<d % P2(bits)>>     \* exactly cnt digits, zero padded
+RECURSIVE MSDigitsMin(_, _)
+MSDigitsMin(d, bits) == IF d = 0 THEN <<>> ELSE MSDigitsMin(d \div P2(bits), bits) \o <<d % P2(bits)>>                 \* no padding
+RECURSIVE FmtLoop(_, _, _, _)
+FmtLoop(x, bits, i, acc) ==           \* i = number of digits still to visit, from digit i-1 down to 0
+    IF i = 0 THEN acc
+    ELSE LET d == DigitOf(x, i - 1)
+         IN IF Len(acc) = 0
+            THEN FmtLoop(x, bits, i - 1, IF d # 0 THEN MSDigitsMin(d, bits) ELSE acc)
+            ELSE FmtLoop(x, bits, i - 1, acc \o MSDigits(d, bits, DBits \div bits))
+FmtDigits(x, bits) == LET s == FmtLoop(x, bits, N, <<>>) IN IF Len(s) = 0 THEN <<0>> ELSE s
 ==============================================================================
